@@ -207,6 +207,39 @@ theorem put_arr_hit {xs : List V} {key : String} {rest : Path} {x : V} {pre : Bo
     · rw [List.getElem?_eq_none h] at he; cases he
   rw [put]; simp only [hk, ha, hr, hlt, he, hc, hm, listSet_eq_set]; simp
 
+theorem put_doc_hit_err {fs : List (String × V)} {key : String} {rest : Path} {x : V} {pre : Bool}
+    {i : Nat} {k : String} {old : V} {e : Err}
+    (hk : ¬(key == "" && rest.isEmpty) = true) (hi : fieldIndex fs key = some i)
+    (he : fs[i]? = some (k, old)) (hc : put old rest x pre = .error e) :
+    put (.doc fs) (key :: rest) x pre = .error e := by
+  rw [put]; simp only [hk, hi, he, hc]; simp
+
+theorem put_arr_hit_err {xs : List V} {key : String} {rest : Path} {x : V} {pre : Bool}
+    {index : Int} {old : V} {e : Err}
+    (hk : ¬(key == "" && rest.isEmpty) = true) (ha : atoi key = some index)
+    (hr : ¬(decide (index < 0) || index == (maxInt : Int)) = true)
+    (he : xs[index.toNat]? = some old) (hc : put old rest x pre = .error e) :
+    put (.arr xs) (key :: rest) x pre = .error e := by
+  have hlt : index.toNat < xs.length := by
+    rcases Nat.lt_or_ge index.toNat xs.length with h | h
+    · exact h
+    · rw [List.getElem?_eq_none h] at he; cases he
+  rw [put]; simp only [hk, ha, hr, hlt, he, hc]; simp
+
+/-- unsetting an array element whose sub-path removal yields the marker stores null. -/
+theorem put_arr_hit_null {xs : List V} {key : String} {rest : Path} {x : V} {pre : Bool}
+    {index : Int} {old nvc pv : V}
+    (hk : ¬(key == "" && rest.isEmpty) = true) (ha : atoi key = some index)
+    (hr : ¬(decide (index < 0) || index == (maxInt : Int)) = true)
+    (he : xs[index.toNat]? = some old) (hc : put old rest x pre = .ok (nvc, pv))
+    (hm : nvc.isMissing = true) :
+    put (.arr xs) (key :: rest) x pre = .ok (.arr (xs.set index.toNat .null), pv) := by
+  have hlt : index.toNat < xs.length := by
+    rcases Nat.lt_or_ge index.toNat xs.length with h | h
+    · exact h
+    · rw [List.getElem?_eq_none h] at he; cases he
+  rw [put]; simp only [hk, ha, hr, hlt, he, hc, hm, listSet_eq_set]; simp
+
 /-! ### put: basic facts -/
 
 /-- `put` never panics: its only error is the plain error. -/
@@ -605,22 +638,23 @@ theorem put_missing_twice (v : V) (p : Path) (pre : Bool) (nv prev : V)
   fun_induction put v p x pre generalizing nv prev <;> cases h <;> subst hx
   · right; exact ⟨_, put_nil _ _ _⟩
   · -- field removed
-    rename_i key rest hk fs i hi kk old he nvc pv hc hm ih
+    rename_i key rest hk fs i hi kk old he nvc pv _ _ ih
     left
     simp only [V.nodupKeys] at hn
     have := fieldIndex_eraseIdx hn hi
     rw [put]; simp only [hk, this]; exact ⟨_, rfl⟩
-  · rename_i key rest hk fs i hi kk old he nvc pv hc hm ih
+  · rename_i key rest hk fs i hi kk old he nvc pv hm hc ih
     simp only [V.nodupKeys] at hn
     have hlt := fieldIndex_some_lt hi
     rw [listSet_eq_set]
     have hi' : fieldIndex (fs.set i (kk, nvc)) key = some i := by rw [fieldIndex_set nvc he]; exact hi
     have he' : (fs.set i (kk, nvc))[i]? = some (kk, nvc) := by simp [hlt]
     rcases ih _ _ (nodupFields_getElem hn he) hc with ⟨e, h'⟩ | ⟨pv', h'⟩
-    · left; rw [put]; simp only [hk, hi', he', h']; exact ⟨_, rfl⟩
+    · left; exact ⟨e, put_doc_hit_err hk hi' he' h'⟩
     · right
       rw [put_doc_hit hk hi' he' h' (by simpa using hm)]
-      exact ⟨_, by simp⟩
+      refine ⟨pv', ?_⟩
+      simp
   · exact absurd rfl ‹¬ V.missing.isMissing = true›
   · exact absurd rfl ‹¬ V.missing.isMissing = true›
   · -- array element
@@ -633,26 +667,21 @@ theorem put_missing_twice (v : V) (p : Path) (pre : Bool) (nv prev : V)
     | true =>
       simp only [if_true]
       have he' : (xs.set index.toNat V.null)[index.toNat]? = some .null := by simp [hlt]
-      have hlt' : index.toNat < (xs.set index.toNat V.null).length := by simpa using hlt
       rcases put_null rest pre with h' | ⟨e, h'⟩
       · right
-        rw [put]; simp only [hk, ha, hr, hlt', he', h', listSet_eq_set]
+        rw [put_arr_hit_null hk ha hr he' h' rfl]
         refine ⟨.null, ?_⟩
-        simp [V.isMissing]
-      · left
-        rw [put]; simp only [hk, ha, hr, hlt', he', h']
-        exact ⟨_, by simp⟩
+        simp
+      · left; exact ⟨e, put_arr_hit_err hk ha hr he' h'⟩
     | false =>
       simp only [Bool.false_eq_true, if_false]
       have he' : (xs.set index.toNat nvc)[index.toNat]? = some nvc := by simp [hlt]
-      have hlt' : index.toNat < (xs.set index.toNat nvc).length := by simpa using hlt
       rcases ih _ _ (nodupList_getElem hn he) hc with ⟨e, h'⟩ | ⟨pv', h'⟩
-      · left
-        rw [put]; simp only [hk, ha, hr, hlt', he', h']
-        exact ⟨_, by simp⟩
+      · left; exact ⟨e, put_arr_hit_err hk ha hr he' h'⟩
       · right
         rw [put_arr_hit hk ha hr he' h' hm]
-        exact ⟨_, by simp⟩
+        refine ⟨pv', ?_⟩
+        simp
   · exact absurd rfl ‹¬ V.missing.isMissing = true›
   · exact absurd rfl ‹¬ V.missing.isMissing = true›
 
@@ -672,7 +701,7 @@ theorem get_after_unset (v : V) (p : Path) (pre : Bool) (nv prev : V) (k : Bool)
     left
     simp only [V.nodupKeys] at hn
     rw [get_cons_doc _ _ _ _ _ hk, getField_eq, fieldIndex_eraseIdx hn hi]
-  · rename_i key rest hk fs i hi kk old he nvc pv hc hm ih
+  · rename_i key rest hk fs i hi kk old he nvc pv hm hc ih
     simp only [V.nodupKeys] at hn
     have hlt := fieldIndex_some_lt hi
     have e1 : get (.doc (listSet fs i (kk, nvc))) (key :: rest) false k = get nvc rest false k := by
